@@ -78,10 +78,16 @@ def pyspec(op, alias, a, b):
     return (OPS[op][1](a, b) if OPS[op][0] == 2 else OPS[op][1](a)) % P
 
 def ob_op(ctx, op, form, fn, alias):
-    A = core.bv64('a'); B = core.bv64('b') if OPS[op][0] == 2 else None
-    paths = kern.run_kernel(ctx, CFG, MODS, fn, _mk(op, form, alias, A, B))
-    goal = lambda tr, ret, outs: [('out', (tr.val(outs[0]) - _spec(op, tr, A, B, alias)) % P == 0)]
-    r = kern.prove_paths(ctx, paths, goal)
+    # products: which input representation suits the solver depends on how the code splits its operands (whole 64-bit words: one product atom;
+    # 32-bit halves: four partial products that line up with schoolbook code); both are tried with a short budget before the full one
+    plan = (('plain', 12), ('limbs', 12), ('plain', None)) if op in ('mul', 'square', 'mulScalar') else (('plain', None),)
+    for mode, tmo_ in plan:
+        mkw = core.bv64 if mode == 'plain' else core.limb64
+        A = mkw('a'); B = mkw('b') if OPS[op][0] == 2 else None
+        paths = kern.run_kernel(ctx, CFG, MODS, fn, _mk(op, form, alias, A, B))
+        goal = lambda tr, ret, outs: [('out', (tr.val(outs[0]) - _spec(op, tr, A, B, alias)) % P == 0)]
+        r = kern.prove_paths(ctx, paths, goal, timeout=tmo_)
+        if r[0] != 'unknown': break
     oid = '%s/%s/%s' % (op, form, alias)
     if r[0] == 'unsat':
         # vacuity twin: the same goal with the expected value perturbed by one must be refutable
@@ -89,7 +95,7 @@ def ob_op(ctx, op, form, fn, alias):
         if twin[0] == 'unsat': return inconc('vacuous: perturbed specification also proved')
         return ok('%d paths; %s' % (len(paths), r[1]), sample={'op': op, 'form': form, 'alias': alias, 'paths': len(paths), 'twin': twin[0]}, twin=twin[0])
     if r[0] == 'sat':
-        m = r[1]; a = m.get('a', 0); b = m.get('b', 0) if B is not None else None
+        m = r[1]; a = core.limbval(m, 'a'); b = core.limbval(m, 'b') if B is not None else None
         got = native_eval(ctx, op, form, fn, alias, a, b); exp = pyspec(op, alias, a, b)
         rep = dict(op=op, form=form, fn=fn, alias=alias, a=a, b=b, expected_mod_p=exp, native_out=got)
         if got % P != exp:
